@@ -10,10 +10,10 @@ import (
 	"time"
 
 	"github.com/conduitio/conduit-commons/csync"
-	"github.com/jpillora/backoff"
 	"github.com/conduitio/conduit/pkg/foundation/cerrors"
 	"github.com/conduitio/conduit/pkg/foundation/log"
 	"github.com/conduitio/conduit/pkg/pipeline"
+	"github.com/jpillora/backoff"
 )
 
 func init() {
